@@ -124,19 +124,11 @@ def hand_assemble(data, table):
 
 def spec_table(ctx):
     """required / accepted parameters per registry and name, as the specification states them (printed by TLC)"""
-    path = os.path.join(ctx.work, 'Table.tla')
-    # evaluate the table with a tiny TLC run
-    from harness.tlc import SPEC
-    src = ('---- MODULE GVConfigTable ----\nEXTENDS GVConfig\n'
-           'ASSUME PrintT(<<"TABLE", [k \\in DOMAIN Registry |-> [n \\in DOMAIN Registry[k] |-> <<Registry[k][n].req, Registry[k][n].opt>>]]>>)\n====\n')
-    with open(os.path.join(SPEC, 'GVConfigTable.tla'), 'w') as f:
-        f.write(src)
+    # evaluate the table with a tiny TLC run of spec/GVConfigTable.tla (a committed module: nothing is written into
+    # spec/ at run time, several checks may run side by side)
     pf = os.path.join(ctx.work, 'dummy_cfg.json')
     json.dump(config.load(config.shipped_files()[0]), open(pf, 'w'))
-    try:
-        res = run_tlc('GVConfigTable', cfg='GVConfig', env={'PARAM_FILE': pf}, workers=1, check=False)
-    finally:
-        os.remove(os.path.join(SPEC, 'GVConfigTable.tla'))
+    res = run_tlc('GVConfigTable', cfg='GVConfig', env={'PARAM_FILE': pf}, workers=1, check=False)
     t = res.find('TABLE')[0][1]
     table = {k: {n: set(v[0]['set']) | set(v[1]['set']) for n, v in names.items()} for k, names in t.items()}
     required = {k: {n: set(v[0]['set']) for n, v in names.items()} for k, names in t.items()}
